@@ -219,6 +219,27 @@ def eval_case(case, rng, thorough):
             bad.append((f"delivery '{label}': output differs from the baseline delivery ({len(a.pkts)} packets / {sum(len(v) for v in a.tcp.values())} TCP bytes / "
                         f"{sum(len(v) for v in a.udp.values())} datagrams vs {len(ab.pkts)} / {sum(len(v) for v in ab.tcp.values())} / {sum(len(v) for v in ab.udp.values())})",
                         dict(f2, argv="\n".join(a2), **{"out.pcapng": r.out, "out_baseline.pcapng": base.out})))
+    # delivery with a history: the key-log file stands at a path from which an earlier run() of the same process read *other* secrets - the file rewritten in place, other
+    # connections' lines of exactly the same size (same labels and lengths, other values), or a shorter log.  What counts is what the file holds now.
+    keytrue = ("\n".join(lines) + "\n").encode()
+    for hk in (["same-size", "shorter"] if thorough or case.get("i", 0) % 2 == 0 else ["same-size"]):
+        other = [" ".join(l.split(" ")[:1] + [rng.randbytes(len(x) // 2).hex() for x in l.split(" ")[1:3]]) for l in lines]
+        if hk == "shorter":
+            other = other[:max(0, len(other) - 1)]
+        fh = {"in.pcapng": ns.pcapng(pk), "k_true.log": keytrue, "k_other.log": ("\n".join(other) + "\n").encode() if other else b"\n"}
+        runs = [["@cp:{dir}/k_other.log:{dir}/keys.log", "-i", "{dir}/in.pcapng", "-o", "{dir}/out_earlier.pcapng", "-s", "{dir}/keys.log"] + xopts,
+                ["@cp:{dir}/k_true.log:{dir}/keys.log", "-i", "{dir}/in.pcapng", "-o", "{dir}/out.pcapng", "-s", "{dir}/keys.log"] + xopts]
+        r = runner.run_tlexport(fh, runs)
+        units += 1
+        fail = e2e.run_failed(r)
+        if fail and fail.startswith("INCONCLUSIVE"):
+            continue
+        kind = "file-at-a-path-read-before-" + hk
+        same = not fail and r.out == base.out
+        classes.add((kind, "failed" if fail else "same" if same else "differs"))
+        if not same:
+            bad.append((f"delivery '{kind}' (an earlier run() of the process read a key log with other secrets from the same path): " + (fail[:400] if fail else "output differs from the baseline delivery"),
+                        dict(fh, argv="\n".join(" ".join(x) for x in runs))))
     out.update(units=units, classes=[list(c) + out["cls"] for c in sorted(classes)], nontrivial=nontrivial and units > 0, mon={"deliveries_compared": units})
     out["tags"] = sorted({f"delivery:{c[0]}" for c in classes})
     if bad:
